@@ -215,6 +215,16 @@ def sweep(ctx, n):
                     src = magpy.current.Polyline(vertices=v, current=nps.uniform(-3, 3))
                     c, rad, rot = np.array([v[0, 0], 0.0, 0.0]), nps.uniform(0.2, 0.6) * lsc, R.from_euler("x", 90, degrees=True)
                     expect, ng = src.current, 200
+                    if (i // 10) % 3 == 1:
+                        # a finely discretised closed coil (a few hundred segments) evaluated at ALL quadrature points in one call: the
+                        # number of (observer, segment) rows is in the hundreds of thousands (where implementations start to chunk)
+                        nseg = int(nps.integers(300, 700))
+                        ph = np.linspace(0, 2 * np.pi, nseg + 1)
+                        v = np.stack([np.cos(ph), np.sin(ph), 0 * ph], axis=1) * nps.uniform(0.8, 1.5) * lsc + off
+                        v[-1] = v[0]
+                        src = magpy.current.Polyline(vertices=v, current=nps.uniform(0.5, 3))
+                        c, rad = np.array([v[0, 0], 0.0, 0.0]), nps.uniform(0.2, 0.6) * lsc
+                        expect, ng = src.current, 1200
                 tot, mag = circulation(lambda p: src.getH(p), c, rad, rot, ng)
                 if kind in ("circ-loop-linked", "circ-polyloop"):
                     err = abs(abs(tot) - abs(expect)) / (abs(expect) + 1e-300)
